@@ -210,11 +210,17 @@ theorem step_ledger (cfg : Cfg) (env : Env) (lib : Lib) (op : Op) (w : World) (h
     generalize strSplit cfg.numWords tmp = sp
     obtain ⟨toks, n⟩ := sp
     simp only
+    have hpre' : ∀ e ∈ pre ++ [detectWipe cfg lib], Neutral e := by
+      intro e he
+      simp only [List.mem_append, List.mem_singleton] at he
+      rcases he with he | rfl
+      · exact hpre e he
+      · trivial
     split
     · exact ⟨.same (by rw [ledger_append, ledger_neutral _ _ hpre]; exact ledger_neutral _ _ (neutral_wipes cfg lib)) rfl, hinv⟩
     · split
-      · exact ⟨.same (by rw [ledger_append, ledger_neutral _ _ hpre]; exact ledger_neutral _ _ (neutral_wipes cfg lib)) rfl, hinv⟩
-      · exact decodeFinish_shape cfg lib _ coin _ pre w hpre hinv
+      · exact ⟨.same (by rw [ledger_append, ledger_neutral _ _ hpre']; exact ledger_neutral _ _ (neutral_wipes cfg lib)) rfl, hinv⟩
+      · exact decodeFinish_shape cfg lib _ coin _ _ w hpre' hinv
   | decodeExplicit s coin li =>
     simp only [step, decodeExplicit]
     have hpre := neutral_decompose cfg env lib s
